@@ -369,7 +369,10 @@ def gen_attack(rng, i):
         line, meta = gen_convergence(rng, i, kind="atk")
         ops = line.split(" ")
         k = next(j for j, o in enumerate(ops) if o.startswith("gather,"))
-        ops.insert(k, "attacker,%d,%d" % (rng.choice([3, 7, 20, 50]), rng.choice([1023, 1023, 0x3fc, 0x0e0, 0x21c])))
+        ops.insert(k, "attacker,%d,%d" % (rng.choice([3, 7, 20, 50]), rng.choice([2047, 2047, 0x3fc, 0x4e0, 0x61c, 0x400])))
+        if rng.random() < 0.5 and not meta.get("nat"):
+            # a STUN server that never answers keeps the discovery transactions of every host candidate pending for 2 s
+            ops[k:k] = ["server,10.9.0.1,3478,silent", "stun,0,10.9.0.1,3478", "stun,1,10.9.0.1,3478"]
         meta = dict(meta, kind="atk-conv")
         return " ".join(ops), meta
     na, nb = rng.choice([1, 2]), rng.choice([1, 2])
@@ -380,7 +383,9 @@ def gen_attack(rng, i):
     for b in ips[1]:
         for a in ips[0]:
             ops.append("hole,%s,%s,on" % (b, a))
-    ops.append("attacker,%d,%d" % (rng.choice([2, 5, 11]), rng.choice([1023, 0x3fc, 0x2ec, 0x0e0])))
+    ops.append("attacker,%d,%d" % (rng.choice([2, 5, 11]), rng.choice([2047, 0x7fc, 0x6ec, 0x4e0, 0x400])))
+    if rng.random() < 0.5:
+        ops += ["server,10.9.0.1,3478,silent", "stun,0,10.9.0.1,3478"]
     ops += ["gather,0,1", "gather,1,1", "run,%d" % rng.choice([0, 10])] + signalling(rng, 1)
     ops += ["run,%d" % rng.choice([3000, 9000]), "digest", "send,0,1,1,100,7", "run,4000"] + final_queries(1)
     return "iso%d %s" % (i, " ".join(ops)), {"kind": "atk-iso", "ncomp": 1, "ctl0": ctl[0], "ips0": ips[0]}
@@ -410,6 +415,8 @@ def oracle_no_attacker_influence(evs, meta):
                 return "isolated agent delivered data to the application: %s" % " ".join(e.f)
             if e.kind == "pkt" and "stun" in e.f and "c0" in e.f and e.f[0].rsplit(":", 1)[0] in meta["ips0"]:
                 want = "ctl=%d" % meta["ctl0"]
+                if "ctl=-1" in e.f:
+                    continue        # no role attribute: a STUN-server discovery request, not a connectivity check
                 if want not in e.f:
                     return "isolated agent changed role: started as %s, sends %s" % (want, [x for x in e.f if x.startswith("ctl=")])
             if e.kind == "api" and e.f[0] == "0" and e.f[1] == "send" and e.f[-1] != "=-1":
